@@ -18,6 +18,12 @@ Op lines (one case = `init`, then any number of `ls` / `probe` / `put`):
 while it is parked every other push (`put`, must be fault=none gate=0) is answered 226 / phase busy;
 `release` lets it finish. Names may carry up to two directory levels (`f/team/x/a.yaml`).
 
+  tick                                          → ok      (the 30 s un-manage delay elapses on the engine's clock)
+  managed                                       → f/a.yaml,q/qa.yaml | %e | n/a
+`managed` lists the configuration files whose endpoints the (stub) HAProxy currently hands to the engine;
+`n/a` once a HAProxy admin call was made to fail in the case (which calls got through then depends on Go's
+map order). After a `tick` it must be exactly the endpoints of the serving configuration.
+
 `rpos` (default first) says where Go's map iteration puts the path of an `rstore:` fault among the
 files `Restore()` writes back: first (nothing else restored) or last (everything else restored).
 The judge evaluates the Spec only for fault plans without a fault inside the restore
@@ -263,7 +269,21 @@ def parseInit (ws : List String) : Option (Disk × Bool) := do
     | _ => false
   if okIn then pure (d, dirl) else none
 
+/-- Endpoints an engine asks HAProxy to manage: one per loaded flow / quota file. -/
+def endpointsOfDisk (d : Disk) : List Path :=
+  (d.filter fun e => match e.1 with | .flow n => loaded n | .quota n => loaded n | _ => false).map (·.1)
+
+def endpointsOf : Engine → List Path
+  | .ready d => endpointsOfDisk d
+  | .uninit => []
+
+def fmtEndpoints (eps : List Path) : String :=
+  let ws := (eps.map fmtPath).toArray.qsort (· < ·)
+  if ws.isEmpty then "%e" else ",".intercalate ws.toList
+
 structure RunSt where
+  reg : Registry := Registry.empty
+  regNA : Bool := false     -- a HAProxy admin call was made to fail: the managed set is not predicted
   dirLink : Bool := false   -- a link to a directory sits in the tree: every Backup() fails
   st : State := ⟨[], .uninit⟩
   live : Bool := false
@@ -271,6 +291,22 @@ structure RunSt where
 
 def fmtMid (names : List String) (mid : List Engine) : String :=
   if mid.isEmpty then "%e" else ";".intercalate (mid.map (fmtProbe names))
+
+/-- The engine switches of a request, as (engine before, engine after) pairs: every switch is preceded by
+    the yield point, so a run with the gate on lists the engines before each switch, and the engine after
+    a switch is the one before the next (or the final one). -/
+def switchesOf (env : Env) (st : State) (req : Req) : List (Engine × Engine) :=
+  let rg := handle env st { req with gate := true }
+  match rg.mid with
+  | [] => []
+  | _ :: tl => rg.mid.zip (tl ++ [rg.engine])
+
+def advanceReg (s : RunSt) (p : Put) : RunSt :=
+  let env := mkEnv p.fault p.corder p.rfirst s.dirLink
+  let isHa := match p.fault with | some (.haproxy _) => true | _ => false
+  let reg := (switchesOf env s.st p.req).foldl
+    (fun r (sw : Engine × Engine) => r.switch (endpointsOf sw.1) (endpointsOf sw.2)) s.reg
+  { s with reg := reg, regNA := s.regNA || isHa }
 
 def runStep (s : RunSt) (line : String) : RunSt × String :=
   match words line with
@@ -280,7 +316,9 @@ def runStep (s : RunSt) (line : String) : RunSt × String :=
     | none => ({ s with live := false }, "bad-op")
     | some (d, dirl) =>
       let r := reload (mkEnv none []) 1 false d .uninit []
-      if r.ok then ({ s with st := ⟨d, r.engine⟩, live := true, dirLink := dirl }, "ok")
+      if r.ok then
+        ({ s with st := ⟨d, r.engine⟩, live := true, dirLink := dirl, regNA := false,
+                  reg := Registry.empty.manage (endpointsOfDisk d) }, "ok")
       else ({ s with live := false }, "err:load")
   | ["ls"] => if s.live then (s, fmtDisk s.st.disk) else (s, "skip")
   | ["probe", names] => if s.live then (s, fmtProbe (probeNames names) s.st.engine) else (s, "skip")
@@ -291,8 +329,13 @@ def runStep (s : RunSt) (line : String) : RunSt × String :=
       if !s.live then (s, "skip") else
       if s.held.isSome && (p.fault.isSome || p.req.gate) then (s, "bad-op") else
       let r := handleLocked (mkEnv p.fault p.corder p.rfirst s.dirLink) s.st s.held.isSome p.req
+      let s := if s.held.isSome then s else advanceReg s p
       ({ s with st := r.state },
        s!"status={r.status} phase={fmtPhase r.phase} mid={fmtMid p.probes r.mid}")
+  | ["tick"] => if s.live then ({ s with reg := s.reg.tick }, "ok") else (s, "skip")
+  | ["managed"] =>
+    if !s.live then (s, "skip") else
+    if s.regNA then (s, "n/a") else (s, fmtEndpoints s.reg.managed)
   | "hold" :: ws =>
     match parsePut ws with
     | none => (s, "bad-op")
@@ -310,6 +353,7 @@ def runStep (s : RunSt) (line : String) : RunSt × String :=
     | none => (s, "none")
     | some p =>
       let r := handle (mkEnv p.fault p.corder p.rfirst s.dirLink) s.st p.req
+      let s := advanceReg s p
       ({ s with st := r.state, held := none },
        s!"status={r.status} phase={fmtPhase r.phase} mid={fmtMid p.probes r.mid}")
   | _ => (s, "bad-op")
@@ -333,6 +377,7 @@ structure JudgeSt where
   fail : Option String := none
   dead : Bool := false
   held : Option Put := none
+  ticked : Bool := false
 
 def parseListing (out : String) : Option Disk :=
   if out == "%e" then some [] else parseEntries (words out)
@@ -359,7 +404,8 @@ def evalPending (s : JudgeSt) (p : Pending) (after : Disk) (probesAfter : String
     let fid := match finding o with | some f => f | none => "-"
     { s with fail := some s!"{fid} status={o.status} phase={fmtPhase o.phase} {whichConjunct o}" }
 
-def judgePut (s : JudgeSt) (p : Put) (out : String) : JudgeSt :=
+def judgePut (s0 : JudgeSt) (p : Put) (out : String) : JudgeSt :=
+  let s := { s0 with ticked := false }
   -- a fault inside the restore: outside the hypotheses (double fault); nothing to judge from here on
   if (match p.fault with | some f => f.inRestore | none => false) then { s with dead := true, pending := none } else
   let ows := words out
@@ -400,6 +446,19 @@ def judgeStep (s : JudgeSt) (op out : String) : JudgeSt :=
     match parsePut ws with
     | none => { s with bad := some "unparsable-put" }
     | some p => judgePut s p out
+  | ["tick"] => { s with ticked := true }
+  | ["managed"] =>
+    -- once the un-manage delay has elapsed HAProxy must hand the engine exactly the endpoints of the
+    -- serving configuration (= of the tree on disk): a rolled-back push must not cost the running flows
+    -- their traffic, an accepted one must not keep the old ones
+    if out == "n/a" || !s.ticked then s else
+    match s.lastLs with
+    | none => s
+    | some d =>
+      let expected := fmtEndpoints (endpointsOfDisk d)
+      if out == expected || s.fail.isSome then { s with ticked := false }
+      else { s with ticked := false,
+                    fail := some s!"- managed-endpoints-differ-from-serving-configuration managed={out} serving={expected}" }
   | "hold" :: ws =>
     if out == "bad-op" then s else
     match parsePut ws with
